@@ -159,10 +159,10 @@ pub const DEF_STR: &str = "(PDef (VStr []))";
 pub fn lf(name: &str, ty: &str, p: &str, desc: Option<&str>) -> String {
     format!(
         "FLeaf {} {} {} {}",
-        dsverif::util::g_str(name),
+        crate::gallina::g_str(name),
         ty,
         p,
-        dsverif::util::g_opt(&desc, |d| dsverif::util::g_str(d))
+        dsverif::util::g_opt(&desc, |d| crate::gallina::g_str(d))
     )
 }
 pub fn flat(items: &[String]) -> String {
@@ -877,6 +877,8 @@ pub struct OpInfo {
     pub hdrs: Vec<&'static str>,
     pub custom_error: bool,
     pub body: Option<&'static str>,
+    /// the response body type is `Option<T>` for a referenceable `T`
+    pub opt_ref_resp: bool,
 }
 fn info(resp: Option<(&'static str, &'static str)>) -> OpInfo {
     OpInfo { resp, ..Default::default() }
@@ -896,6 +898,10 @@ impl OpInfo {
     }
     fn ce(mut self) -> Self {
         self.custom_error = true;
+        self
+    }
+    fn on(mut self) -> Self {
+        self.opt_ref_resp = true;
         self
     }
     fn b(mut self, b: &'static str) -> Self {
@@ -962,7 +968,7 @@ pub fn build_api() -> (ApiDescription<Ctx>, Ctx, BTreeMap<String, OpInfo>) {
     reg!("r_ok_bool", r_ok::<bool>, Method::GET, JSON, "/r/ok/bool", info(OK_J));
     reg!("r_ok_f64", r_ok::<f64>, Method::GET, JSON, "/r/ok/f64", info(OK_J));
     reg!("r_ok_opt", r_ok::<Option<u32>>, Method::GET, JSON, "/r/ok/opt", info(OK_J));
-    reg!("r_ok_optra", r_ok::<Option<RA>>, Method::GET, JSON, "/r/ok/optra", info(OK_J));
+    reg!("r_ok_optra", r_ok::<Option<RA>>, Method::GET, JSON, "/r/ok/optra", info(OK_J).on());
     reg!("r_ok_vec", r_ok::<Vec<RB>>, Method::GET, JSON, "/r/ok/vec", info(OK_J));
     reg!("r_ok_map", r_ok::<BTreeMap<String, RA>>, Method::GET, JSON, "/r/ok/map", info(OK_J));
     reg!("r_created_rc", r_created::<RC>, Method::POST, JSON, "/r/created/rc", info(CREATED_J));
